@@ -132,7 +132,7 @@ def run(ctx):
         ctx.check('MUST-PASS', 'sqlite: transaction committed on every success path', lambda P_: must_pass(P_, S, r'Transaction::commit$'), floor=1)
         ctx.check('MUST-PASS', 'sqlite: one transaction per write', lambda P_: must_pass(P_, S, r'Connection::transaction$', before_rx=r'Connection::execute$'), floor=1)
         ctx.check('WIRE', 'sqlite: the snapshot upsert writes the given snapshot',
-                  lambda P_: wire(P_, S, r'Connection::execute$', 1, r'INSERT INTO mls_group|INSERT INTO epoch|DELETE FROM epoch', which='all'), floor=3)
+                  lambda P_: wire(P_, S, r'Connection::execute$', 1, r'INSERT INTO mls_group|INSERT INTO epoch|UPDATE epoch SET|DELETE FROM epoch', which='all'), floor=3)
         ctx.check('SQL-SCOPE', 'sqlite: every statement on the per-group tables is scoped by group_id', sql_scope, floor=6)
         ctx.check('MUST-PASS', 'sqlite: GroupStateStorage::write goes through update_group_state',
                   lambda P_: must_pass(P_, 'SqLiteGroupStateStorage as GroupStateStorage::write', r'SqLiteGroupStateStorage::update_group_state$'), floor=1)
